@@ -263,6 +263,10 @@ func GetAttr(v Value, attr Value, args ...Value) (Value, error) {
 	if !retval.IsValid() {
 		return nil, fmt.Errorf("getattr: unable to locate attribute \"%s\" on \"%v\"", attr, v)
 	}
+	if !retval.CanInterface() {
+		// (also before calling it: Call panics on a func held in an unexported field)
+		return nil, fmt.Errorf("getattr: attribute \"%s\" on \"%v\" is not exported", attr, v)
+	}
 	if retval.Kind() == reflect.Func {
 		t := retval.Type()
 		if t.NumOut() > 1 {
